@@ -131,6 +131,9 @@ func (m *scripted) Decode(toks []int32) (string, error) {
 	var sb strings.Builder
 	for _, t := range toks {
 		sb.WriteByte(byte('a' + t%26))
+		if t%2 != 0 {
+			sb.WriteByte(byte('A' + t%26)) // odd tokens are two letters long
+		}
 	}
 	return sb.String(), nil
 }
